@@ -20,4 +20,17 @@ PROPS = {
                     'bounded by the Kani compose harnesses'],
         'assumptions': [],
     },
+    'C13': {
+        'level': 'proof',
+        'verus': ['c13-frame'],
+        'kani': ['io'],
+        'explanation': 'Verus proves, for every buffer and every header value, that Frame arithmetic and LengthDelimited/NoopFramer '
+                       '::extract never overflow, never index out of bounds and never report a frame that does not fit the buffered '
+                       'bytes; Kani checks WHICH length is decoded (all 8 header bytes symbolic), encode/decode round trips, '
+                       'delimiter scanning and the cmsg builder/iterator round trip on the real code (bounded, listed separately).',
+        'trusted': ['A4 vshim: io::Error construction keeps only the kind (R7); u64::from_{be,le}_bytes are uninterpreted in '
+                    'Verus (R10), their meaning is checked by kani io lenfield::extract_hostile_header',
+                    'contracts of compio-buf views (common/buf.vrs) are assumed here and discharged by check C10'],
+        'assumptions': [],
+    },
 }
